@@ -21,6 +21,7 @@
 #include <amgcl/coarsening/smoothed_aggr_emin.hpp>
 #include <amgcl/coarsening/ruge_stuben.hpp>
 #include <new>
+#include <limits>
 #include <sys/wait.h>
 
 // ------------------------------------------------------------------ deterministic heap
@@ -314,16 +315,29 @@ static long long quant(LD x) {               // units of 2^-40, rounded up, capp
     LD q = std::ceil(x * 1099511627776.0L);
     return q > 1073741823.0L ? 1073741823 : (long long)q;
 }
-static void c_ns(vr::rng &g, const M &A, eps_t e, int bs, int cols, int rc) {
+// NaN / inf aware maximum (std::max silently drops a NaN)
+static void upd(LD &m, LD v) { if (!(v == v) || std::isinf(v)) m = std::numeric_limits<LD>::infinity(); else if (v > m) m = v; }
+// bmode: how the near-null space B (n x cols, row major) is chosen
+//   0 generic: first column constant, others random (full-rank local blocks)
+//   1 component-wise constants B(i,k) = [i % cols == k] (A has `cols` unknowns per node, scalar aggregation:
+//     aggregates hold one component only, so the other columns vanish identically on them)
+//   2 generic, but one column is zeroed on every second aggregate
+//   3 linearly dependent columns: column 1 = 2 * column 0 (constant or random)
+// Modes 1-3 give rank-deficient local blocks: the per-aggregate QR must still return an orthonormal Q and
+// Q*R = B exactly (a zero sub-column is the identity reflector).
+static void c_ns(vr::rng &g, const M &A, eps_t e, int bs, int cols, int rc, int bmode = 0) {
     const int n = A.nrows;
-    std::vector<double> B(n * cols);
-    for (int i = 0; i < n; ++i) for (int k = 0; k < cols; ++k) B[i * cols + k] = k == 0 ? 1.0 : 2 * g.unit() - 1;
-    caseid c = {"ns", 0, 0, 0, -1};
-    vr::obj o; head(o, "ns", c, e); o.i("bs", bs).i("cols", cols).i("on", OMN[rc]).i("od", OMD[rc]).raw("A", J(A, o));
+    caseid c = {bmode ? "nsdef" : "ns", 0, 0, 0, -1};
+    vr::obj o; head(o, "ns", c, e); o.i("bs", bs).i("cols", cols).i("bmode", bmode).i("on", OMN[rc]).i("od", OMD[rc]).raw("A", J(A, o));
     coarsening::pointwise_aggregates::params ap; ap.eps_strong = e.f(); ap.block_size = bs;
     std::vector<ptrdiff_t> id; std::vector<char> strong; size_t count = 0;
     try { coarsening::pointwise_aggregates ag(A, ap, cols); id = ag.id; strong = ag.strong_connection; count = ag.count; o.raw("ag", ag_json(ag, false)); }
     catch (const error::empty_level&) { o.raw("ag", EMPTY_AG).b("empty", true); put(o); return; }
+    std::vector<double> B(n * cols);
+    for (int i = 0; i < n; ++i) for (int k = 0; k < cols; ++k) B[i * cols + k] = k == 0 ? 1.0 : 2 * g.unit() - 1;
+    if (bmode == 1) for (int i = 0; i < n; ++i) for (int k = 0; k < cols; ++k) B[i * cols + k] = (i % cols == k) ? 1.0 : 0.0;
+    if (bmode == 2) { int kz = g.below(cols); for (int i = 0; i < n; ++i) if (id[i] >= 0 && (id[i] / bs) % 2 == 0) B[i * cols + kz] = 0.0; }
+    if (bmode == 3) { bool rnd = g.coin(); for (int i = 0; i < n; ++i) { if (rnd) B[i * cols] = 2 * g.unit() - 1; B[i * cols + 1] = 2 * B[i * cols]; } }
     coarsening::aggregation<Backend>::params prm; prm.aggr = ap; prm.nullspace.cols = cols; prm.nullspace.B = B;
     coarsening::aggregation<Backend> C(prm);
     coarsening::smoothed_aggregation<Backend>::params sp; sp.aggr = ap; sp.nullspace.cols = cols; sp.nullspace.B = B; sp.relax = RELAX[rc];
@@ -332,6 +346,9 @@ static void c_ns(vr::rng &g, const M &A, eps_t e, int bs, int cols, int rc) {
         auto PR = C.transfer_operators(A);
         const M &P = *std::get<0>(PR);
         const std::vector<double> &Bc = C.prm.nullspace.B;
+        bool fin = true;
+        for (size_t p = 0; p < (size_t)P.ptr[P.nrows]; ++p) if (!std::isfinite(P.val[p])) fin = false;
+        for (double v : Bc) if (!std::isfinite(v)) fin = false;
         // orthonormality of the columns and reproduction of B, in long double
         std::vector<LD> G(P.ncols * P.ncols, 0.0L);
         LD repro = 0, orth = 0;
@@ -341,14 +358,16 @@ static void c_ns(vr::rng &g, const M &A, eps_t e, int bs, int cols, int rc) {
             if (id[i] < 0) continue;
             for (int k = 0; k < cols; ++k) {
                 LD s = 0; for (ptrdiff_t p = P.ptr[i]; p < P.ptr[i+1]; ++p) s += (LD)P.val[p] * (LD)Bc[P.col[p] * cols + k];
-                repro = std::max(repro, std::fabs(s - (LD)B[i * cols + k]));
+                upd(repro, std::fabs(s - (LD)B[i * cols + k]));
             }
         }
-        for (size_t a = 0; a < P.ncols; ++a) for (size_t b = 0; b < P.ncols; ++b) orth = std::max(orth, std::fabs(G[a * P.ncols + b] - (a == b ? 1.0L : 0.0L)));
+        for (size_t a = 0; a < P.ncols; ++a) for (size_t b = 0; b < P.ncols; ++b) upd(orth, std::fabs(G[a * P.ncols + b] - (a == b ? 1.0L : 0.0L)));
         o.b("empty", false).raw("P", JF(P, o, false)).i("bc", (long long)Bc.size()).i("orth", quant(orth)).i("repro", quant(repro));
         // smoothed aggregation with the same near-null space against (I - w D_F^-1 A_F) P_tent in long double
         auto SR = S.transfer_operators(A);
         const M &Q = *std::get<0>(SR);
+        for (size_t p = 0; p < (size_t)Q.ptr[Q.nrows]; ++p) if (!std::isfinite(Q.val[p])) fin = false;
+        for (double v : S.prm.nullspace.B) if (!std::isfinite(v)) fin = false;
         LD om = (LD)OMN[rc] / (LD)OMD[rc], diff = 0;
         bool shape = Q.nrows == P.nrows && Q.ncols == P.ncols;
         for (int i = 0; i < n && shape; ++i) {
@@ -361,9 +380,9 @@ static void c_ns(vr::rng &g, const M &A, eps_t e, int bs, int cols, int rc) {
                 for (ptrdiff_t p = P.ptr[ca]; p < P.ptr[ca+1]; ++p) { ref[P.col[p]] += va * (LD)P.val[p]; used[P.col[p]] = 1; }
             }
             for (ptrdiff_t p = Q.ptr[i]; p < Q.ptr[i+1]; ++p) { ref[Q.col[p]] -= (LD)Q.val[p]; used[Q.col[p]] = 1; }
-            for (size_t k = 0; k < P.ncols; ++k) if (used[k]) diff = std::max(diff, std::fabs(ref[k]));
+            for (size_t k = 0; k < P.ncols; ++k) if (used[k]) upd(diff, std::fabs(ref[k]));
         }
-        o.b("sashape", shape).i("sadiff", quant(diff));
+        o.b("sashape", shape).i("sadiff", quant(diff)).b("finite", fin);
     } catch (const error::empty_level&) { o.b("empty", true); }
     put(o);
 }
@@ -376,6 +395,22 @@ static void mode_ns(uint64_t seed, int reps, int nmax) {
                               : random_digraph(g, nb, std::min(0.9, 2.5 / nb), true);
         std::shared_ptr<M> A = bs == 1 ? A0 : (g.coin() ? lift(*A0, bs) : random_blocks(g, nb, bs, std::min(0.9, 2.0 / nb)));
         c_ns(g, *A, e, bs, cols, g.below(3));
+    }
+    // rank-deficient local blocks (own generator stream, so the cases above do not move)
+    vr::rng h(seed + 9500);
+    for (int r = 0; r < reps; ++r) {
+        int bmode = 1 + r % 3, cols = h.range(2, 3);
+        eps_t e = EPS[h.below(2)];
+        if (bmode == 1) {   // `cols` unknowns per node, decoupled (Kronecker lift) or weakly coupled, scalar aggregation
+            int nb = h.range(3, std::max(3, nmax / cols));
+            auto A0 = vr::random_mmatrix(h, nb, std::min(0.9, (2.0 + 2 * h.unit()) / nb), 3, h.range(0, 1), true);
+            c_ns(h, *lift(*A0, cols), e, 1, cols, h.below(3), 1);
+        } else {
+            int bs = h.range(1, 3), nb = h.range(3, std::max(3, nmax / bs));
+            auto A0 = vr::random_mmatrix(h, nb, std::min(0.9, (2.0 + 2 * h.unit()) / nb), 3, h.range(0, 1), true);
+            std::shared_ptr<M> A = bs == 1 ? A0 : lift(*A0, bs);
+            c_ns(h, *A, e, bs, cols, h.below(3), bmode);
+        }
     }
 }
 
